@@ -399,13 +399,7 @@ func (s *ssigner) Sign(ctx context.Context, r *proto.SSHCertificateSigningReques
 			keyName = s.nm.key(p)
 		}
 		// record what the CA was asked for
-		var exts []string
-		for k, v := range r.Extensions {
-			exts = append(exts, hx.HexS(k)+"="+hx.HexS(v))
-		}
-		sort.Strings(exts)
-		*s.csrs = append(*s.csrs, fmt.Sprintf("meta=%s,val=%d,prins=%s,exts=%s,key=%s,kid=%s", hx.HexS(r.KeyMeta.GetIdentifier()), r.Validity,
-			hx.StrList(r.Principals), strings.Join(exts, "+"), keyName, hx.Tok([]byte(r.KeyId))))
+		*s.csrs = append(*s.csrs, showRequest(r, keyName))
 	}
 	reply := "err"
 	if len(s.replies) > 0 {
@@ -454,6 +448,17 @@ func (s *ssigner) Sign(ctx context.Context, r *proto.SSHCertificateSigningReques
 		panic("signer panic")
 	}
 	return nil, nil, errors.New("scripted CA failure")
+}
+
+// showRequest renders a signing request as the driver expects it
+func showRequest(r *proto.SSHCertificateSigningRequest, keyName string) string {
+	var exts []string
+	for k, v := range r.Extensions {
+		exts = append(exts, hx.HexS(k)+"="+hx.HexS(v))
+	}
+	sort.Strings(exts)
+	return fmt.Sprintf("meta=%s,val=%d,prins=%s,exts=%s,key=%s,kid=%s", hx.HexS(r.KeyMeta.GetIdentifier()), r.Validity,
+		hx.StrList(r.Principals), strings.Join(exts, "+"), keyName, hx.Tok([]byte(r.KeyId)))
 }
 
 // ---------------------------------------------------------------- one history
@@ -524,6 +529,12 @@ func runGS(args []string) []string {
 			case st == "abs":
 			case strings.HasPrefix(st, "key:"):
 				os.WriteFile(path, ssh.MarshalAuthorizedKey(lk(st[4:]).signer.PublicKey()), 0o644)
+			case st == "empty": // exists, holds no key at all
+				os.WriteFile(path, nil, 0o644)
+			case st == "ws":
+				os.WriteFile(path, []byte(" \n\t\n"), 0o644)
+			case st == "comment":
+				os.WriteFile(path, []byte("# revoked\n"), 0o644)
 			case st == "bad":
 				os.WriteFile(path, []byte("this is not a key\n"), 0o644)
 			case st == "dir":
@@ -578,7 +589,22 @@ func runGS(args []string) []string {
 			signer.replies = strings.Split(r["ca"], "|")
 		}
 		nChalBefore := len(chals)
-		runErr := gensign.Run(context.Background(), param, handlers, signer)
+		ctx := context.Background()
+		var theSigner csr.Signer = signer
+		if r["ca"] == "realdown" || r["ca"] == "realdead" {
+			// the real crypki signer: unreachable CA, and (realdead) a request context already over
+			real, err := getRealSigner()
+			if err != nil {
+				panic(err)
+			}
+			theSigner = &rsigner{real, nm, &tr, &csrs}
+			if r["ca"] == "realdead" {
+				c2, cancel := context.WithCancel(ctx)
+				cancel()
+				ctx = c2
+			}
+		}
+		runErr := gensign.Run(ctx, param, handlers, theSigner)
 		cc.Close()
 		res := "ok"
 		if runErr != nil {
